@@ -42,10 +42,15 @@ class Run:
         self.tr = []              # in-situ opt_tr lines
 
 
+DEFSEQ = []   # default-options call sequences seen by the last gen()/rerun (dicts)
+
+
 def parse_output(raw):
     runs, cur_meta, tr_pending = [], [], []
     for l in raw:
-        if l.startswith('RUN '):
+        if l.startswith('DEFSEQ '):
+            DEFSEQ.append(json.loads(l[7:]))
+        elif l.startswith('RUN '):
             cur_meta.append(json.loads(l[4:]))
         elif l.startswith('opt_replay'):
             r = Run(cur_meta)
@@ -115,9 +120,10 @@ def fsqrt(q):
 
 class C09:
     id = 'C09'
-    props_files = ['SmoothProps/C09.lean']
-    props_module = 'SmoothProps.C09'
-    lean_targets = ['SmoothProps.C09']
+    # SrcTieLogic: the scalar decision logic regenerated from the C++ source by tools/gen_logic.py is the model (C09All = C09 + SrcTieLogic)
+    props_files = ['SmoothProps/C09.lean', 'SmoothProps/SrcTieLogic.lean']
+    props_module = 'SmoothProps.C09All'
+    lean_targets = ['SmoothProps.C09All']
     rule = ('harness/optim.cpp PART 1..8: families lin_static/lin_dynamic/lin_sparse/lin_multi (dyadic A, exact recomputation), '
             'degen_unused/degen_const/degen_stationary, rosenbrock, poly, expfit, mixed_so3_vec, align_so3/se2/se3 (noise 0, 1e-3, 1e-2), '
             'bundle, tri_so3_sparse x differentiation mode (analytic, numerical, default) x strategy (Ceres, Disney) x '
@@ -141,16 +147,21 @@ class C09:
     def gen(self, ctx, n, seed=None):
         bins = vlib.build_harnesses(specs())
         runs = []
+        del DEFSEQ[:]
         for p in PARTS:
             raw = vlib.run_harness(bins[f'optim{p}'], ['gen', n], env={'VERIF_SEED': str(seed if seed is not None else ctx['seed'])})
             runs += parse_output(raw)
         return runs
 
     def rerun(self, ids):
-        """ids: list of (part, fam, index, seed)"""
+        """ids: list of (part, fam, index, seed); fam == 'defseq' replays one default-options sequence"""
         bins = vlib.build_harnesses(specs())
         runs = []
+        del DEFSEQ[:]
         for (p, f, i, s) in ids:
+            if f == 'defseq':
+                parse_output(vlib.run_harness(bins['optim1'], ['defseq', i], env={'VERIF_SEED': str(s)}))
+                continue
             raw = vlib.run_harness(bins[f'optim{p}'], ['run', f, i], env={'VERIF_SEED': str(s)})
             runs += parse_output(raw)
         return runs
@@ -323,6 +334,31 @@ class C09:
                                     'cost_start': costs[0], 'cost_final': costs[-1], 'dist_final': dec(m['dist_final'], 'f64'),
                                     'stratum': m.get('stratum')})
             tr_lines += [(ident, l) for l in r.tr]
+        # ---- default-options call sequences (independent calls must not influence each other)
+        cov['default_option_sequences'] = len(DEFSEQ)
+        for d in DEFSEQ:
+            ident = {'part': 1, 'fam': 'defseq', 'index': d['k'], 'seed': d['seed']}
+
+            def addd(check, err, tol, what):
+                findings.append({'property': 'C09', 'key': {'family': 'default_options_sequence', 'region': 'default_options_sequence',
+                                                            'check': check, 'a_kind': d['a_kind']},
+                                 'err': err, 'tol': tol, 'what': what, 'run': dict(ident, call=1), 'line': json.dumps(d)[:2000]})
+            for which in ('delta_fresh_before', 'delta_fresh_after'):
+                dl = dec(d[which], 'f64')
+                if dl != 10000.0:   # = Optim ceres initial state (SrcTieLogic.optim_ceres_init ties the constant to the source)
+                    addd('fresh_default_delta', abs(dl - 10000.0), 0.0,
+                         f'a freshly default-constructed MinimizeOptions has trust-region size {dl!r} ({which}), not the initial 10000: '
+                         'default options carry state from earlier calls')
+            if d['shared_default_strategy']:
+                addd('shared_default_strategy', 1.0, 0.0, 'two default-constructed MinimizeOptions share one strategy object')
+            if d['b_x_default'] != d['b_x_explicit'] or d['b_status_default'] != d['b_status_explicit'] or d['b_iter_default'] != d['b_iter_explicit']:
+                addd('default_equals_explicit_fresh', 1.0, 0.0,
+                     f"minimize with default options (status {STATUS[d['b_status_default']]}, iter {d['b_iter_default']}) differs from the same call "
+                     f"with a fresh CeresStrategy (status {STATUS[d['b_status_explicit']]}, iter {d['b_iter_explicit']}) after an earlier default-options call")
+            dist = dec(d['b_dist_default'], 'f64')
+            if d['b_status_default'] in (0, 1) and not (dist <= DIST_TOL):
+                addd('distance_to_minimiser', dist, DIST_TOL, f"status {STATUS[d['b_status_default']]} but the result is {dist:.3g} from the minimiser "
+                     f"(start was {dec(d['b_dist_start'], 'f64'):.3g} away) in a call that follows another default-options call")
         if recon_breaks:
             broken.append({'what': 'correspondence', 'name': 'harness re-computation of the loop observables (rho handed to the strategy '
                            'hook differs from the re-computed one)', 'count': len(recon_breaks), 'first': recon_breaks[0]})
